@@ -87,7 +87,12 @@ def cut_positions(rng, g) -> tuple[list[int], bool]:
     n = len(g.data)
     if n <= FULL_ENUM_LIMIT:
         return list(range(n)), True
-    pos = set(workload.hot_positions(g))
+    hot = workload.hot_positions(g)
+    if len(hot) > 768:
+        # very many read boundaries (an array of thousands of primitives): keep the head, the
+        # tail and a seeded sample, otherwise one instance would cost minutes
+        hot = hot[:64] + hot[-64:] + rng.sample(hot[64:-64], 640)
+    pos = set(hot)
     pos.update(rng.randrange(n) for _ in range(256))
     pos.update((0, 1, n - 1, n - 2))
     return sorted(p for p in pos if 0 <= p < n), False
